@@ -7,7 +7,7 @@ from checks.C07 import conds_for, ENCODED, FILES
 from checks.C03 import validate_translator
 import random
 
-RAISING_PROGS = [0, 1, 4, 7, 17, 22, 26, 28, 29, 34]
+RAISING_PROGS = [0, 1, 4, 7, 17, 22, 26, 28, 29, 37]
 
 
 def run(tier):
